@@ -116,6 +116,7 @@ func (h *historyBuffer) ResetWithIndex(index uint64) {
 	h.index = index
 	h.head = 0
 	h.tail = 0
+	h.persist()
 	h.flushCount = defaultFlushCount
 }
 
